@@ -272,6 +272,11 @@ def run(ctx):
     # design level: noise-free evidence of every refinement of every small major call: the planted assignment is
     # admissible at score 0, nothing scores below, zero-score assignments carry the planted variants, the fill keeps the rules
     ctx.mc("mc/MC_MinorModel", label="MC_MinorModel(planted refinements)", workers=4)
+    # encoding layer: every constraint the code documents is a named rule of MinorEncoding; TLC proves that the
+    # encoding refines the semantic layer and, per rule, finds an input on which dropping it changes the allowed
+    # results; those witnesses are replayed into the real stage and validated by the trace spec
+    from . import enc
+    enc.run_minor(ctx)
     tasks = []
     for j in range(12 if quick else 60):
         tasks.append(("toy", rng.choice(["hg19", "hg38"]), rng.randrange(1 << 30), 60 if quick else 150, "noisy"))
@@ -333,6 +338,9 @@ def replay(path):
     aldyenv.setup()
     with open(path) as f:
         m = json.load(f)["case"]
+    if m.get("enc"):
+        from . import enc
+        return enc.replay(path, "C04")
     gname, genome = m["gene"].split("/")
     g = genes.load(gname, genome)
     table = {int(p): v for p, v in m["table"].items()}
